@@ -1224,3 +1224,130 @@ impl<'a> Exec<'a> {
         Outcome { violation, stats, digest: dg.0 }
     }
 }
+
+
+// -------------------------------------------------------------------------------------------
+// Warm-up
+// -------------------------------------------------------------------------------------------
+
+/// A fixed world that touches every lazily initialised static of the crate (all rule shapes of
+/// the generator plus hand-written lines for the rarely used regexes).
+pub fn kitchen_sink_world() -> World {
+    let p = Profile {
+        n_rules: (120, 120),
+        n_probes: (30, 30),
+        p_tag: 35,
+        p_regexish: 50,
+        cosmetic: true,
+        removeparam: true,
+        redirect: true,
+        csp: true,
+        badfilter: true,
+        generichide: true,
+        perms: true,
+        tag_on_modifiers: false,
+        extra: 8,
+    };
+    let mut w = gen_world(0x5157_a7e5, &p);
+    for k in 1..12u64 {
+        let w2 = gen_world(0x5157_a7e5 + k, &p);
+        w.rules.extend(w2.rules);
+        w.probes.extend(w2.probes.into_iter().take(6));
+    }
+    let extra_lines = [
+        "example.com##+js(set, a, b, c, d, e, f, g, h, i)",
+        "example.com##+js(noop)",
+        "##.a\\:b",
+        "##.c\\31 23",
+        "###id\\.x > .y",
+        "example.com##.x:has-text(/ad/)",
+        "example.com##.x:style(color: red !important)",
+        "example.com#@#.x",
+        "example.*,~sub.example.com##.ent",
+        "$removeparam=utm_source",
+        "||example.com^$removeparam=ref",
+        "||example.com^$redirect=noop.js:5",
+        "||example.com^$csp=script-src 'self'",
+        "@@||example.com^$csp",
+        "/banner[0-9]+/$match-case",
+        "127.0.0.1 hosts.example.com",
+        "||xn--e1aybc.example^",
+        "a*b^c|",
+        "|https://example.com/path|",
+        "*$script,domain=example.com",
+    ];
+    for l in extra_lines {
+        w.rules.push(Rule { spec: RuleSpec::Cos(l.to_string()), perm: 3 });
+    }
+    w.knobs.optimize = false;
+    w.knobs.debug = true;
+    w
+}
+
+/// Executes the kitchen-sink world on `n` consecutive fresh threads. The `regex` crate shards the
+/// cache pool of every (static) Regex by a global thread counter modulo 8, and creating a cache
+/// draws a hash seed from std's per-thread counter: until every shard of every static regex holds
+/// a cache, the hash keys a run sees depend on which runs came before it. 16 consecutive threads
+/// saturate all shards.
+pub fn warm_up_statics(n: usize) {
+    let w = std::sync::Arc::new(kitchen_sink_world());
+    for t in 0..n {
+        let w = w.clone();
+        seams::hashkey_set(0x77aa_0000 + t as u64);
+        let h = std::thread::Builder::new()
+            .stack_size(32 << 20)
+            .spawn(move || {
+                set_quiet(true);
+                let _ = catch_unwind(AssertUnwindSafe(|| {
+                    for optimize in [false, true] {
+                        let reqs = Reqs::new(&w);
+                        let mut s = Sut::build(&w.rules, &w.resources, optimize, true, (t % 3) as u8, false, None);
+                        for round in 0..2 {
+                            for rq in reqs.reqs.iter().flatten() {
+                                let _ = s.check(rq);
+                                let _ = s.csp(rq);
+                                let _ = s.check_subset(rq, true, true);
+                            }
+                            for p in &w.pages {
+                                let _ = s.cosmetic(p);
+                                for c in &w.classids {
+                                    let _ = s.classid(c, p);
+                                }
+                            }
+                            let tv: Vec<&str> = w.tags.iter().map(|x| x.as_str()).collect();
+                            if round == 0 {
+                                s.use_tags(&tv);
+                            }
+                        }
+                        let _ = s.debug_info();
+                        if let Sut::Engine(e) = &mut s {
+                            if let Ok(b) = e.serialize_raw() {
+                                let _ = e.deserialize(&b);
+                                let _ = e.deserialize(&b[..b.len() / 2]);
+                            }
+                            for rq in reqs.reqs.iter().flatten() {
+                                let _ = e.check_network_request(rq);
+                            }
+                        }
+                        let mut b = Sut::build(&w.rules, &w.resources, optimize, false, 0, true, None);
+                        for rq in reqs.reqs.iter().flatten() {
+                            let _ = b.check(rq);
+                        }
+                        if let Sut::Blocker(bl, _) = &mut b {
+                            bl.optimize();
+                            for r in &w.extra {
+                                if let Ok(f) = NetworkFilter::parse(&r.text(), true, Default::default()) {
+                                    let _ = bl.add_filter(f);
+                                }
+                            }
+                        }
+                        for rq in reqs.reqs.iter().flatten() {
+                            let _ = b.check(rq);
+                        }
+                    }
+                }));
+            })
+            .expect("spawn warm-up thread");
+        let _ = h.join();
+    }
+}
